@@ -253,6 +253,25 @@ fn strip_pre(out: &[u8]) -> Result<Vec<u8>, String> {
     })
 }
 
+thread_local! {
+    /// a stream iterator can yield at most one match per byte (set from the stream length before each run)
+    pub static STREAM_ITEM_CAP: std::cell::Cell<usize> = std::cell::Cell::new(usize::MAX);
+}
+
+/// a non-overlapping iterator yields at most one match per position of the span (+1 for the end); anything beyond that
+/// is a runaway iterator: the answer is cut there (and so differs from every correct answer) instead of eating memory
+fn iter_cap(i: &Input<'_>) -> usize {
+    i.get_span().end.saturating_sub(i.get_span().start) + 3
+}
+
+fn ovl_cap(i: &Input<'_>, npats: usize) -> usize {
+    (i.get_span().end.saturating_sub(i.get_span().start) + 2) * (npats + 1) + 3
+}
+
+fn bounded<I: Iterator<Item = Match>>(it: I, cap: usize) -> Result<Vec<Match>, MatchError> {
+    Ok(it.take(cap).collect())
+}
+
 pub trait Srch {
     fn find(&self, i: Input<'_>) -> Result<Option<Match>, MatchError>;
     fn iter(&self, i: Input<'_>) -> Result<Vec<Match>, MatchError>;
@@ -324,7 +343,8 @@ impl<A: Automaton> Srch for Low<A> {
         self.0.try_find(&i)
     }
     fn iter(&self, i: Input<'_>) -> Result<Vec<Match>, MatchError> {
-        Ok(self.0.try_find_iter(i)?.collect())
+        let cap = iter_cap(&i);
+        bounded(self.0.try_find_iter(i)?, cap)
     }
     fn ovl(
         &self,
@@ -334,7 +354,8 @@ impl<A: Automaton> Srch for Low<A> {
         self.0.try_find_overlapping(i, st)
     }
     fn ovl_iter(&self, i: Input<'_>) -> Result<Vec<Match>, MatchError> {
-        Ok(self.0.try_find_overlapping_iter(i)?.collect())
+        let cap = ovl_cap(&i, self.0.patterns_len());
+        bounded(self.0.try_find_overlapping_iter(i)?, cap)
     }
     fn replace_bytes(
         &self,
@@ -375,6 +396,9 @@ impl<A: Automaton> Srch for Low<A> {
         let it = self.0.try_stream_find_iter(rdr)?;
         let mut out = vec![];
         for item in it {
+            if out.len() > STREAM_ITEM_CAP.with(|c| c.get()) {
+                break; // runaway iterator: more items than the stream has bytes
+            }
             match item {
                 Ok(m) => out.push(Ok(m)),
                 Err(_) => {
@@ -421,7 +445,8 @@ impl Srch for AhoCorasick {
         self.try_find(i)
     }
     fn iter(&self, i: Input<'_>) -> Result<Vec<Match>, MatchError> {
-        Ok(self.try_find_iter(i)?.collect())
+        let cap = iter_cap(&i);
+        bounded(self.try_find_iter(i)?, cap)
     }
     fn ovl(
         &self,
@@ -431,7 +456,8 @@ impl Srch for AhoCorasick {
         self.try_find_overlapping(i.clone(), st)
     }
     fn ovl_iter(&self, i: Input<'_>) -> Result<Vec<Match>, MatchError> {
-        Ok(self.try_find_overlapping_iter(i)?.collect())
+        let cap = ovl_cap(&i, self.patterns_len());
+        bounded(self.try_find_overlapping_iter(i)?, cap)
     }
     fn replace_bytes(
         &self,
@@ -472,6 +498,9 @@ impl Srch for AhoCorasick {
         let it = self.try_stream_find_iter(rdr)?;
         let mut out = vec![];
         for item in it {
+            if out.len() > STREAM_ITEM_CAP.with(|c| c.get()) {
+                break; // runaway iterator: more items than the stream has bytes
+            }
             match item {
                 Ok(m) => out.push(Ok(m)),
                 Err(_) => {
@@ -715,6 +744,7 @@ pub fn run_op(r: &Req, b: &Built) -> Result<String, String> {
             let wlimit = r.kv.get("wlimit").and_then(|x| x.parse::<usize>().ok());
             let repl = if op == "stream" { vec![] } else { r.list("repl")? };
             aho_corasick::verif::set_stream_spare(spare);
+            STREAM_ITEM_CAP.with(|c| c.set(data.len() + 3));
             let mut rdr = SchedReader {
                 data,
                 pos: 0,
@@ -847,6 +877,13 @@ pub fn run_op(r: &Req, b: &Built) -> Result<String, String> {
                 "same".to_string()
             }))
         }
+        "memusage" => Ok(match b {
+            // (only without a prefilter: the prefilter's own memory is not part of the modelled sizes)
+            Built::Nc(a) if a.prefilter().is_none() => format!("mem={}", a.memory_usage()),
+            Built::C(a) if a.prefilter().is_none() => format!("mem={}", a.memory_usage()),
+            Built::Dfa(a) if a.prefilter().is_none() => format!("mem={}", a.memory_usage()),
+            _ => "n/a".to_string(),
+        }),
         "meta" => Ok(with_srch(b, &mut |s| s.meta())),
         "threads" => crate::exec::threads(r, b),
         "selfcheck" => {
@@ -861,15 +898,23 @@ pub fn run_op(r: &Req, b: &Built) -> Result<String, String> {
                 let mut i = 0;
                 while i < n {
                     let p = &pats[i];
-                    let mut hay = vec![0u8];
-                    hay.extend_from_slice(p);
-                    hay.push(0);
+                    // two embeddings: between zero bytes, and after a partial occurrence broken by 0xFF (the search
+                    // must recover from a non-start state on the highest byte value)
+                    let mut hay1 = vec![0u8];
+                    hay1.extend_from_slice(p);
+                    hay1.push(0);
+                    let mut hay2 = p[..p.len().saturating_sub(1)].to_vec();
+                    hay2.push(0xFF);
+                    let at2 = hay2.len();
+                    hay2.extend_from_slice(p);
+                    hay2.push(0xFF);
+                    for (hay, at) in [(hay1, 1usize), (hay2, at2)] {
                     let mut res = s.find(Input::new(&hay));
                     if matches!(&res, Err(e) if err_name(e) == "err-unanchored") {
                         // anchored-only searcher: anchor at the embedded pattern
                         res = s.find(
                             Input::new(&hay)
-                                .span(1..hay.len())
+                                .span(at..hay.len())
                                 .anchored(Anchored::Yes),
                         );
                     }
@@ -899,6 +944,7 @@ pub fn run_op(r: &Req, b: &Built) -> Result<String, String> {
                             let _ = mk;
                         }
                     }
+                    }
                     i += step;
                 }
                 "ok".to_string()
@@ -908,6 +954,41 @@ pub fn run_op(r: &Req, b: &Built) -> Result<String, String> {
             let hay = r.bytes("hay")?;
             let input = mk_input(r, &hay)?;
             let which = r.s_or("api", "find");
+            if which == "stream" {
+                // a whole stream search: matches and the number of automaton transitions
+                let sched = r.nums("sched")?;
+                let spare = r.kv.get("spare").and_then(|x| x.parse::<usize>().ok());
+                aho_corasick::verif::set_stream_spare(spare);
+                let out = with_srch(b, &mut |s| {
+                    let mut rdr = SchedReader {
+                        data: hay.clone(),
+                        pos: 0,
+                        sched: sched.clone(),
+                        calls: 0,
+                        fail_at: None,
+                        empty_buf_calls: 0,
+                        fail_kind: std::io::ErrorKind::Other,
+                    };
+                    aho_corasick::verif::reset_counters();
+                    match s.stream_find(&mut rdr) {
+                        Err(e) => format!("{} t=0", err_name(&e)),
+                        Ok(v) => format!(
+                            "{} t={}",
+                            fmt_list(
+                                &v.iter()
+                                    .map(|x| match x {
+                                        Ok(m) => fmt_match(m),
+                                        Err(()) => "io-err".to_string(),
+                                    })
+                                    .collect::<Vec<_>>()
+                            ),
+                            aho_corasick::verif::counters().0
+                        ),
+                    }
+                });
+                aho_corasick::verif::set_stream_spare(None);
+                return Ok(out);
+            }
             Ok(with_srch(b, &mut |s| {
                 aho_corasick::verif::reset_counters();
                 let res = match which {
@@ -1335,7 +1416,7 @@ pub fn run_packed(r: &Req) -> Vec<(String, String)> {
                 "iter" => {
                     // find_iter searches the whole haystack
                     let v: Vec<String> =
-                        s.find_iter(&hay).map(|m| fmt_match(&m)).collect();
+                        s.find_iter(&hay).take(hay.len() + 3).map(|m| fmt_match(&m)).collect();
                     fmt_list(&v)
                 }
                 "minlen" => format!("{}", s.minimum_len()),
@@ -1356,19 +1437,30 @@ pub fn run_packed(r: &Req) -> Vec<(String, String)> {
 // thread executing a seeded sequence of mixed operations; every result is
 // compared with the result of the same operation executed alone, before and
 // after the concurrent phase.
+/// operations per haystack in the purity runs: find, iterate, overlapping / earliest, anchored find
+const OPS: usize = 4;
+
 fn one_op(s: &dyn Srch, op: usize, hay: &[u8], std: bool) -> String {
     let input = Input::new(hay);
-    match op % 3 {
+    match op % OPS {
         0 => match s.find(input) {
             Err(e) => err_name(&e),
             Ok(m) => fmt_opt(&m),
         },
         1 => res_list(s.iter(input)),
+        3 => {
+            // anchored search (an unsupported anchored mode answers with its error, which is a result too)
+            match s.find(input.anchored(Anchored::Yes)) {
+                Err(e) => err_name(&e),
+                Ok(m) => fmt_opt(&m),
+            }
+        }
         _ => {
             if std {
                 let mut st = OverlappingState::start();
                 let mut out = vec![];
-                loop {
+                // (bounded: a runaway call sequence must not eat memory)
+                for _ in 0..(hay.len() + 2) * 64 {
                     match s.ovl(&input, &mut st) {
                         Err(e) => {
                             out.push(err_name(&e));
@@ -1401,9 +1493,9 @@ pub fn threads(r: &Req, b: &Built) -> Result<String, String> {
     let reps = r.n_or("reps", 20);
     let seed = r.n_or("seed", 1) as u64;
     let std = matches!(match_kind(r)?, MatchKind::Standard);
-    let nops = hays.len() * 3;
+    let nops = hays.len() * OPS;
     let run_seq = |s: &dyn Srch| -> Vec<String> {
-        (0..nops).map(|k| one_op(s, k, &hays[k / 3], std)).collect()
+        (0..nops).map(|k| one_op(s, k, &hays[k / OPS], std)).collect()
     };
     // the concurrent phase is generic over the concrete searcher type
     fn conc<S: Srch + Sync + Clone + Send>(
@@ -1415,7 +1507,7 @@ pub fn threads(r: &Req, b: &Built) -> Result<String, String> {
         std: bool,
         expect: &[String],
     ) -> Option<String> {
-        let nops = hays.len() * 3;
+        let nops = hays.len() * OPS;
         let barrier = std::sync::Barrier::new(nthreads);
         let bad = std::sync::Mutex::new(None::<String>);
         std::thread::scope(|sc| {
@@ -1438,7 +1530,7 @@ pub fn threads(r: &Req, b: &Built) -> Result<String, String> {
                             x ^= x >> 7;
                             x ^= x << 17;
                             let k = (x % nops as u64) as usize;
-                            let got = one_op(me, k, &hays[k / 3], std);
+                            let got = one_op(me, k, &hays[k / OPS], std);
                             if got != expect[k] {
                                 *bad.lock().unwrap() = Some(format!(
                                     "thread{}-op{}:{}!={}",
@@ -1492,10 +1584,10 @@ pub fn threads(r: &Req, b: &Built) -> Result<String, String> {
         let maxlen = hays.iter().map(|h| h.len()).max().unwrap_or(0);
         let mut buf = vec![0u8; maxlen.max(1)];
         let mut run_alias = |s: &dyn Srch| {
-            for round in 0..3usize {
+            for round in 0..OPS {
                 for (h, hay) in hays.iter().enumerate() {
                     buf[..hay.len()].copy_from_slice(hay);
-                    let k = h * 3 + (round + h) % 3;
+                    let k = h * OPS + (round + h) % OPS;
                     let got = one_op(s, k, &buf[..hay.len()], std);
                     if got != before[k] && alias_bad.is_none() {
                         alias_bad = Some(format!("inplace-op{}:{}!={}", k, got, before[k]));
@@ -1511,7 +1603,7 @@ pub fn threads(r: &Req, b: &Built) -> Result<String, String> {
         }
     }
     let bad = bad.or(alias_bad);
-    let finds: Vec<String> = (0..hays.len()).map(|h| before[h * 3].clone()).collect();
+    let finds: Vec<String> = (0..hays.len()).map(|h| before[h * OPS].clone()).collect();
     let conc_s = match bad {
         Some(d) => format!("diff:{}", d),
         None => {
